@@ -270,8 +270,14 @@ pub fn gen_counter(r: &mut SplitMix64, p: &MProfile) -> Option<Counter> {
             gen_dist(r, DistMode::Mixed, p.families)
         };
         Counter::new_dist(op, d)
-    } else {
+    } else if k < 9 || !r.chance(1, 2) {
         Counter::new_copy(op)
+    } else {
+        // no constructor builds it, but the fields are public and validation accepts it: a copying counter
+        // that also carries a distribution (the copy takes precedence, nothing is sampled)
+        let mut c = Counter::new_copy(op);
+        c.dist = Some(if p.dist == DistMode::Const { const_dist(r.range(0, 3) as f64) } else { gen_dist(r, DistMode::Mixed, p.families) });
+        c
     })
 }
 
